@@ -310,10 +310,13 @@ def cb_t(c):
         out.append("void main() {")
         out += ["    " + (a % ("g(%s, %s)" % (A, B)) if "%s" in a else a) for a in arms]
         out += ['    println("after");', "}"]
-    elif ctx == "void":
+    elif ctx in ("void", "asg"):
         out.append("void g(int a, int b) {")
         out += ["    " + s for s in setup]
-        out += ['    println("g1");', "    %s r = %s;" % (RT, te), '    println("g2");']
+        if ctx == "void":
+            out += ['    println("g1");', "    %s r = %s;" % (RT, te), '    println("g2");']
+        else:
+            out += ["    %s r = %s::Ok(0);" % (RT, RT), '    println("g1");', "    r = %s;" % te, '    println("g2");']
         out += ["    " + (a % "r" if "%s" in a else a) for a in arms]
         out.append("}")
         out += ["void main() {", "    g(%s, %s);" % (A, B), '    println("after");', "}"]
@@ -321,7 +324,10 @@ def cb_t(c):
         out.append("void main() {")
         out += ["    int a = %s; int b = %s;" % (A, B)]
         out += ["    " + s for s in setup]
-        out += ['    println("g1");', "    %s r = %s;" % (RT, te), '    println("g2");']
+        if ctx == "main":
+            out += ['    println("g1");', "    %s r = %s;" % (RT, te), '    println("g2");']
+        else:
+            out += ["    %s r = %s::Ok(0);" % (RT, RT), '    println("g1");', "    r = %s;" % te, '    println("g2");']
         out += ["    " + (a % "r" if "%s" in a else a) for a in arms]
         out += ['    println("after");', "}"]
     return "\n".join(out) + "\n"
@@ -507,26 +513,15 @@ def label(c, m):
             labs.append("C13-decl-from-call-drops-string")
         if any(v[1][0] == "none" for v in vals):
             labs.append("C13-payloadless-variant-lost")
-        if any(v[1][0] == "int" and not -2 ** 31 <= int(v[1][1]) < 2 ** 31 for v in vals):
-            labs.append("C13-long-payload-binding-range")
     elif c["fam"] == "Q":
         if c["ok"][0] == "str":
             labs.append("C13-qmark-string-payload")
-        if any(l[0] == "stmt" for l in c["links"]):
-            labs.append("C13-qmark-swallowed-in-statement")
         ps = [c["ok"]] + [l[1] for l in c["links"]]
         if any(p == ["str", ""] for p in ps):
             labs.append("C13-empty-string-payload")
-        if any(p[0] == "int" and not -2 ** 31 <= int(p[1]) < 2 ** 31 for p in ps):
-            labs.append("C13-long-payload-binding-range")
     else:
-        if c["ctx"] != "ret":
-            labs.append("C13-try-outside-return")
-        if "%" in ex_ser(c["expr"]):
-            labs.append("C13-modulo-class")
-        v, _, _ = py_eval3(c["expr"], c["a"], c["b"])
-        if v is not None and not -2 ** 31 <= v < 2 ** 31:
-            labs.append("C13-long-payload-binding-range")
+        if c["ctx"] in ("asg", "asgmain"):
+            labs.append("C13-try-outside-return-assignment")
     return labs
 
 
@@ -539,7 +534,7 @@ def pick_payload(rng, kind, safe=False):
         return ["none"]
     if kind == "string":
         return ["str", rng.choice(SAFE_STR if safe else STR_POOL)]
-    pool = INT_POOL[:6] if (kind == "int" or safe) else INT_POOL
+    pool = INT_POOL[:6] if kind == "int" else INT_POOL
     return ["int", str(rng.choice(pool))]
 
 
@@ -684,8 +679,6 @@ def gen_random_q(rng, safe):
     for j in range(n):
         if strchain:
             ctxs = CTXS[:3]
-        elif safe and 1 <= sel <= n and j < sel - 1:
-            ctxs = CTXS[:4]          # avoidance: no value-discarding link above the failing one
         else:
             ctxs = CTXS
         links.append([rng.choice(ctxs), pick_payload(rng, ek, safe)])
@@ -693,6 +686,8 @@ def gen_random_q(rng, safe):
     return {"fam": "Q", "kind": rng.choice("RO"), "ok": ok, "sel": sel, "links": links, "ekind": ek}
 
 
+TCTX_OK = ["ret", "decl", "void", "main"]
+TCTX_ALL = TCTX_OK + ["asg", "asgmain"]
 ATOMS = [["A"], ["B"], ["L", 2], ["I", ["A"]], ["I", ["B"]], ["I", ["L", 1]], ["D0"], ["D1"]]
 OPS = ["+", "-", "*", "/", "%"]
 AB = [(7, 2), (7, 0), (0, 5), (-7, 2), (1, 3), (5, -1), (2147483647, 1), (-2147483648, 2)]
@@ -710,7 +705,7 @@ def gen_try_exhaustive(thorough):
             for chk in (False, True):
                 if not thorough and v is not None and chk != ((ei + ai) % 2 == 1):
                     continue
-                for ctx in (("ret", "decl", "void", "main") if thorough else ("ret",)):
+                for ctx in (TCTX_ALL if thorough else (TCTX_ALL[(ei + ai) % 4],)):
                     yield {"fam": "T", "checked": chk, "ctx": ctx, "a": a, "b": b, "expr": e}
 
 
@@ -737,10 +732,8 @@ def gen_random_t(rng, safe):
         v, m, err = py_eval3(e, a, b)
         if m >= 2 ** 62:
             continue
-        if safe and (err == "mod0" or (v is not None and not -2 ** 31 <= v < 2 ** 31)):
-            continue          # avoidance: #25 and payloads outside int
         break
-    return {"fam": "T", "checked": rng.random() < 0.5, "ctx": "ret" if safe else rng.choice(["ret", "decl", "void", "main"]),
+    return {"fam": "T", "checked": rng.random() < 0.5, "ctx": rng.choice(TCTX_OK if safe else TCTX_ALL),
             "a": a, "b": b, "expr": e}
 
 
@@ -878,7 +871,7 @@ def build_cases(seed, thorough):
         for k in range(300):
             rng = rng_for(seed, "c13-tctx", k)
             c = gen_random_t(rng, False)
-            c["ctx"] = ["decl", "void", "main"][k % 3]
+            c["ctx"] = ["decl", "void", "main", "asg", "asgmain"][k % 5]
             cases.append(c)
             origin.append("T-contexts")
     return cases, origin
@@ -959,7 +952,7 @@ def run(rep):
                             "3 sources x {match var, match call} x every variant of 3 types; ? chains: 1..%d links x every context assignment "
                             "(5 contexts) x failing link at every position x Result/Option; try/checked: all binary expressions over 8 atoms x 5 "
                             "operators x %d operand pairs%s" % (5 if thorough else 4, 3 if thorough else 2, 5 if thorough else 4,
-                                                                 len(AB) if thorough else 4, " x 4 statement contexts" if thorough else ""),
+                                                                 len(AB) if thorough else 4, " x 6 statement contexts" if thorough else " (statement context rotating over 4)"),
         "input_distribution": hist, "programs": len(cases), "classify_messages": len(msgs), "classify_classes": cclasses,
         "model_conforming_to_spec": n_conf, "in_proved_fragment": n_safe,
         "nonconforming_by_known_finding": lab_hist,
